@@ -155,7 +155,7 @@ def main(tier):
     for b in bad:
         run.inconclusive_because(f"positive control did not fire: {b}")
     plan = PLAN[tier]
-    run_shards(run, "c16", plan["shards"], timeout_s=600 if tier == "quick" else 7200)
+    run_shards(run, "c16", plan["shards"], timeout_s=3600 if tier == "quick" else 7200)
     if run.counters.get("qualifying_pairs", 0) < 300:
         run.inconclusive_because("too few qualifying (problem, index) pairs")
     if run.counters.get("nonqualifying_pairs_that_grow", 0) < 50:
